@@ -41,6 +41,13 @@ def accessors(name, hdr):
         elif ch == '}': depth -= 1
         elif depth == 0: out += ch
         if ch == '}' and depth == 0: out += ';'
+    # keep only the public sections
+    parts = re.split(r'\b(public|protected|private)\s*:', out)
+    pub = ''; cur = 'private'
+    for p_ in parts:
+        if p_ in ('public', 'protected', 'private'): cur = p_
+        elif cur == 'public': pub += p_
+    out = pub
     setters = {}; getters = {}
     for m in re.finditer(r'\bvoid\s+(\w+)\s*\(\s*(?:const\s+)?([\w:]+(?:<[\w ,]+>)?)\s*&?\s*\w*\s*\)\s*;', out):
         setters[m.group(1)] = m.group(2)
@@ -144,7 +151,7 @@ def shim_for(cls, hdr, fields, gets, h, pin):
         for j, (g, gt) in enumerate(gets):
             if g != f: L.append('            %s b%d = k.%s();' % (qual(cls, gt), j, g))
         if norm_t(t).startswith('small_uint<'):
-            bits = int(re.search(r'<(\d+)>', t).group(1))
+            bits = int(re.search(r'<\s*(\d+)\s*>', t).group(1))
             L.append('            uint64_t raw = vp_u64(); typedef %s::repr_type R; R rv = (R)raw;' % qt)
             L.append('            bool fits = (uint64_t)rv <= %dull; bool threw = false;' % ((1 << bits) - 1))
             L.append('            try { k.%s(%s(rv)); } catch (value_too_large&) { threw = true; }' % (f, qt))
